@@ -128,7 +128,7 @@ do_case(const struct rc_day *p, int c, struct dt_dt_s v, int n, const struct dur
 			cal_text(c, p, text, sizeof(text));
 			snprintf(dtxt, sizeof(dtxt), "%+db", n);
 			snprintf(cas, sizeof(cas), "%d %d %d", c, n, p->rd);
-			dadd_cmd(cmd, sizeof(cmd), c, text, dtxt, o == O_F ? "%F" : NULL);
+			const char *cmdp = dadd_cmd(cmd, sizeof(cmd), c, text, dtxt, o == O_F ? "%F" : NULL);
 			if (o == O_DAISY) {
 				snprintf(exp, sizeof(exp), "%d", trd + 1);
 			} else if (o == O_DFLT) {
@@ -136,7 +136,7 @@ do_case(const struct rc_day *p, int c, struct dt_dt_s v, int n, const struct dur
 			} else {
 				snprintf(exp, sizeof(exp), "%04d-%02d-%02d", t->y, t->m, t->d);
 			}
-			ex_viol(key, (double)trd, cas, o == O_DAISY ? NULL : cmd,
+			ex_viol(key, (double)trd, cas, o == O_DAISY ? NULL : cmdp,
 				"%04d-%02d-%02d (%s) given as '%s' (%s) %s: %s observation is '%s'; the %d%s Monday-Friday day strictly %s it is %04d-%02d-%02d (%s) = '%s'",
 				p->y, p->m, p->d, rc_abbr_wday[p->wd], text, cal_name[c], dtxt, obs_name[o], got[o],
 				n > 0 ? n : -n, vf_ordsuf(n > 0 ? n : -n), n > 0 ? "after" : "before",
